@@ -509,6 +509,8 @@ class ImageBatch(DataTensor):
         if dim < 0:
             dim += self.ndim
         if dim == 0:
+            if start < 0:
+                start += len(grid)
             grid = grid[start : start + length]
         elif dim > 1:
             grid = tuple(g.narrow(self.ndim - dim - 1, start, length) for g in grid)
